@@ -67,6 +67,59 @@ fn print_raw(lib: &raw::Library) -> Value {
     let ls: Vec<Value> = layers.slots.iter().map(|(_, l)| json!([l.layernum, l.name])).collect();
     json!({"name": lib.name, "units": format!("{:?}", lib.units), "cells": cells, "layers": ls})
 }
+/// The two private maps of a [raw::Layer] (`purps`: number -> purpose, `nums`: purpose -> number), taken from its Debug print
+/// (the only complete view of them the public API gives) and sorted, since a map has no order of its own.
+/// Purposes that carry a string (`Named`) would not survive the split; no conversion exercised here creates one.
+fn layer_maps(l: &raw::Layer) -> (Value, Value) {
+    let d = format!("{:?}", l);
+    let grab = |tag: &str| -> Vec<String> {
+        let i = d.rfind(tag).expect("Debug print of Layer: field") + tag.len();
+        let j = i + d[i..].find('}').expect("Debug print of Layer: closing brace");
+        let body = &d[i..j];
+        if body.is_empty() {
+            vec![]
+        } else {
+            body.split(", ").map(|s| s.to_string()).collect()
+        }
+    };
+    let mut purps: Vec<(i64, String)> = grab("purps: {")
+        .iter()
+        .map(|e| {
+            let (n, p) = e.split_once(": ").expect("purps entry");
+            (n.parse::<i64>().expect("purps key"), p.to_string())
+        })
+        .collect();
+    purps.sort();
+    for (n, p) in purps.iter() {
+        // the public lookup agrees with the print
+        assert_eq!(l.purpose(*n as i16).map(|q| format!("{:?}", q)), Some(p.clone()));
+    }
+    let mut nums: Vec<(String, i64)> = grab("nums: {")
+        .iter()
+        .map(|e| {
+            let (p, n) = e.rsplit_once(": ").expect("nums entry");
+            (p.to_string(), n.parse::<i64>().expect("nums value"))
+        })
+        .collect();
+    nums.sort();
+    (json!(purps), json!(nums))
+}
+/// A layer table in full, in its own (slot) order: per slot the layer number, name and both purpose maps; then the table's
+/// `nums` map (layer number -> position of the slot its key points to) sorted by number, and the size of `names`.
+fn print_layers(layers: &raw::Layers) -> Value {
+    let keys: Vec<raw::LayerKey> = layers.slots().keys().collect();
+    let slots: Vec<Value> = layers
+        .slots()
+        .iter()
+        .map(|(_k, l)| {
+            let (purps, nums) = layer_maps(l);
+            json!([l.layernum, l.name, purps, nums])
+        })
+        .collect();
+    let mut nums: Vec<(i16, i64)> = layers.nums.iter().map(|(n, k)| (*n, keys.iter().position(|x| x == k).map(|p| p as i64).unwrap_or(-1))).collect();
+    nums.sort();
+    json!({"slots": slots, "nums": nums, "names": layers.names.len()})
+}
 /// Creation dates are the documented exception of the property: replace them by a FIXED date.
 /// (`GdsDateTimes::default()` is the time of the call, so it must not be used here.)
 fn zero_dates(g: &mut gds21::GdsLibrary) {
@@ -263,17 +316,7 @@ fn once(case: &Value, rep: u64) -> Vec<(String, String)> {
             }
             match raw::Layers::from_proto(&t) {
                 Err(e) => out.push(("tech_to_layers".into(), format!("ERR {}", short(&format!("{:?}", e))))),
-                Ok(layers) => {
-                    let v: Vec<Value> = layers
-                        .slots()
-                        .iter()
-                        .map(|(_k, l)| {
-                            let purps: Vec<Value> = (0..64i16).filter_map(|n| l.purpose(n).map(|p| json!([n, format!("{:?}", p)]))).collect();
-                            json!([l.layernum, l.name, purps])
-                        })
-                        .collect();
-                    out.push(("tech_to_layers".into(), Value::Array(v).to_string()));
-                }
+                Ok(layers) => out.push(("tech_to_layers".into(), print_layers(&layers).to_string())),
             }
         }
         _ => out.push(("bad_src".into(), "".into())),
